@@ -520,6 +520,7 @@ func (fr *Frame) store(x *ssa.Store, st *State) {
 	lv := fx.pointee(pv, elem)
 	if fr.top && fx.contract != nil && strings.HasPrefix(lv.Key, "F.") {
 		fr.ghostAnchors("store:"+lv.Key, st)
+		fr.ghostAnchors("setfield:"+lv.Key, st)
 	}
 	if fr.top && fx.contract != nil && len(fx.contract.Asserts) > 0 && strings.HasPrefix(lv.Key, "F.") {
 		var ownerTy types.Type
@@ -527,6 +528,20 @@ func (fr *Frame) store(x *ssa.Store, st *State) {
 			ownerTy = fa.X.Type()
 		}
 		fr.storeAsserts("store:"+lv.Key, st, x.Pos(), x.Block(), SVal{V: v, Ty: elem}, SVal{V: tv(lv.Ref), Ty: ownerTy})
+		// `setfield:` is the same event for assignments to the field itself only (whole-struct copies do not raise it)
+		fr.storeAsserts("setfield:"+lv.Key, st, x.Pos(), x.Block(), SVal{V: v, Ty: elem}, SVal{V: tv(lv.Ref), Ty: ownerTy})
+	}
+	if fa, ok := x.Addr.(*ssa.FieldAddr); ok && fr.top && fx.contract != nil && !strings.HasPrefix(lv.Key, "F.") {
+		// assignment to a field of a frame-local struct variable: raises the `setfield:` event of the field's type
+		if pt, ok := fa.X.Type().Underlying().(*types.Pointer); ok {
+			if stT, ok := pt.Elem().Underlying().(*types.Struct); ok {
+				key := fieldKey(pt.Elem(), stT.Field(fa.Field).Name())
+				fr.ghostAnchors("setfield:"+key, st)
+				if len(fx.contract.Asserts) > 0 {
+					fr.storeAsserts("setfield:"+key, st, x.Pos(), x.Block(), SVal{V: v, Ty: elem}, SVal{V: fr.val(fa.X), Ty: fa.X.Type()})
+				}
+			}
+		}
 	}
 	fx.frameWriteLV(st, lv, x.Pos(), fr)
 	// closures and function values stored in memory lose their static identity
